@@ -6,13 +6,14 @@ import pathlib
 import re
 
 VERIF = pathlib.Path(__file__).resolve().parent.parent
+marker = pathlib.Path('/tmp/regress_props.txt')
+if not marker.exists() or marker.read_text().strip():
+    raise SystemExit('the last tools/regress.sh run was restricted to some checks (or did not record what it ran): not refreshing the recorded outcomes from it')
 for kind, f in (('seeded', '/tmp/regress_seeded.json'), ('benign', '/tmp/regress_benign.json')):
     for r in json.load(open(f)):
         m = re.search(r'/verif/' + kind + r'/(C\d\d-\d+)/?$', r['dir'])
         if not m or not r.get('ok'):
             continue
-        if len(r.get('checks') or {}) < 19:
-            raise SystemExit(f'{f} was produced by a run restricted to {sorted(r.get("checks") or {})}: not refreshing the recorded outcomes from it')
         mp = VERIF / kind / m.group(1) / 'meta.json'
         meta = json.load(open(mp))
         if kind == 'seeded':
